@@ -673,7 +673,7 @@ fn main() {
         let mut cx = Ctx { rep: &mut rep, model: &mut model, vac: 0 };
         probes(&mut cx, &s);
         large_probes(&mut cx, &s);
-        let tables = args.n(160, 1800);
+        let tables = args.n(120, 1800);
         let per_table = args.n(8, 16);
         let big_hi = args.n(1100, 4000) as i64;
         for ti in 0..tables {
